@@ -118,6 +118,7 @@ structure Inv (n : Nat) (s : VSt) : Prop where
   mphase : ∀ u, (s.pc u).mphase = true → s.mc u.1 = .running u.2
   mpre : ∀ u, (s.pc u).mpre = true → s.nmod u.1 = 0
   has_zip : ∀ u, (s.pc u).needZip = true → s.zip.isSome = true
+  has_mod : ∀ u, s.pc u = .mUnlock true → s.modf.isSome = true
   loc : ∀ u, Local n s (s.pc u)
   /-- a killed process never runs again -/
   dead_idle : ∀ u, s.dead u.1 = true → s.pc u = .idle
